@@ -25,6 +25,8 @@ FAIL_CODES = {'cstl_map_insert': (1 << 32) - 1}
 
 
 def run(m, rep, tier):
+    from .. import canaries
+    canaries.run(m, rep, ('alloc',))
     f1 = rep.rule('F1', 'allocator results are used / committed only under result != NULL', floor=5)
     for f in m.all_plain_functions():
         for c in alloc_calls(f):
